@@ -80,10 +80,28 @@ def run_impl(base: int, n: int, init: list, ops: list[tuple[str, object]]):
                 u.add(arg)
             elif name == 'disc':
                 u.discard(arg)
+            elif name in ('upds', 'dupds'):
+                from elementpath.regex.codepoints import RegexError
+                try:
+                    (u.update if name == 'upds' else u.difference_update)(arg)
+                except RegexError:
+                    r, b = snap()
+                    outs.append(('ERR:RegexError ' + r, b))
+                    continue
             elif name in ('upd', 'dupd'):
                 entries, as_string = arg
                 val = render_subset_string(entries) if as_string else list(entries)
                 (u.update if name == 'upd' else u.difference_update)(val)
+            elif name in ('iorl', 'isubl', 'iandl', 'ixorl'):
+                o = list(arg)        # plain iterable operand
+                if name == 'iorl':
+                    u |= o
+                elif name == 'isubl':
+                    u -= o
+                elif name == 'iandl':
+                    u &= o
+                else:
+                    u ^= o
             else:
                 o = UnicodeSubset(list(arg))
                 if name == 'ior':
@@ -112,6 +130,8 @@ def argstr(name, arg) -> str:
         return estr(arg)
     if name in ('upd', 'dupd'):
         return lstr(arg[0])
+    if name in ('upds', 'dupds'):
+        return '.'.join(str(ord(c)) for c in arg) or '.'
     return lstr(arg)
 
 
@@ -133,6 +153,36 @@ def gen_entry(rng, base, n):
     return (a, b)
 
 
+ESCAPABLE = '-|.^?*+{}()[]\\'
+
+
+def gen_subset_string(rng, base, n) -> str:
+    """character-subset text over the window: single characters, ranges, single-character escapes;
+    a literal hyphen is written escaped unless first/last; sometimes a reversed range (invalid)"""
+    def atom(c):
+        ch = chr(c)
+        if ch in '[]\\':
+            return '\\' + ch
+        if ch == '-':
+            return '\\-'
+        if ch in ESCAPABLE and rng.random() < 0.4:
+            return '\\' + ch
+        return ch
+    items = []
+    for _ in range(rng.randint(0, 5)):
+        a = base + rng.randrange(n)
+        if rng.random() < 0.5:
+            items.append(atom(a))
+        else:
+            b = min(a + rng.choice([0, 1, 2, 3, 6]), base + n - 1)
+            if rng.random() < 0.06 and b > a:
+                a, b = b, a
+            items.append(atom(a) + '-' + atom(b))
+    if rng.random() < 0.15 and base <= 45 < base + n:
+        (items.insert if rng.random() < 0.5 else (lambda i, x: items.append(x)))(0, '-')
+    return ''.join(items)
+
+
 def gen_canon_list(rng, base, n, density):
     s = {base + i for i in range(n) if rng.random() < density}
     # runs make ranges likely
@@ -146,7 +196,9 @@ def gen_canon_list(rng, base, n, density):
 def gen_case(rng, quick=True):
     hi = rng.random() < 0.15
     n = rng.choice([12, 16, 24, 40])
-    base = (MAXCP1 - n) if hi else rng.choice([0, 0, 60, 97, 0x4E00])
+    base = (MAXCP1 - n) if hi else rng.choice([0, 0, 40, 60, 97, 0x4E00])
+    if base == 40:
+        n = 24
     if base == 97:
         n = min(n, 24)
     stringable = base in (97, 0x4E00)
@@ -159,7 +211,21 @@ def gen_case(rng, quick=True):
             ops.append(('add', gen_entry(rng, base, n)))
         elif r < 0.70:
             ops.append(('disc', gen_entry(rng, base, n)))
-        elif r < 0.82:
+        elif r < 0.76:
+            # binary operator with a plain list operand (arbitrary order, entries may overlap)
+            entries = [gen_entry(rng, base, n) for _ in range(rng.randint(0, 5))]
+            if rng.random() < 0.5:   # non-overlapping variant: outside the trigger of F13d
+                seen, keep = set(), []
+                for e in entries:
+                    pts = {e} if isinstance(e, int) else set(range(*e))
+                    if not (pts & seen):
+                        keep.append(e)
+                        seen |= pts
+                entries = keep
+            ops.append((rng.choice(['iorl', 'isubl', 'iandl', 'ixorl', 'ixorl']), entries))
+        elif r < 0.80 and base in (40, 97):
+            ops.append((rng.choice(['upds', 'upds', 'dupds']), gen_subset_string(rng, base, n)))
+        elif r < 0.86:
             # update()/difference_update() with an arbitrary (unsorted, possibly overlapping) iterable
             # of entries, or with the equivalent character-subset string
             entries = [gen_entry(rng, base, n) for _ in range(rng.randint(0, 6))]
@@ -184,6 +250,9 @@ CORPUS = [
     (0, 12, [1, 3, 5], [('ixor', [(0, 6)]), ('iand', [2, 4]), ('isub', [2])]),
     (97, 20, [], [('upd', ([97, 99, 98, (101, 104)], True)), ('dupd', ([(98, 100)], True)), ('upd', ([(100, 102), 100], False))]),
     (0, 16, [2], [('upd', ([(4, 6), 5, (5, 8), 1], False)), ('dupd', ([7, 6, (0, 3)], False))]),
+    (0, 16, [(0, 10)], [('ixorl', [(1, 5), (3, 7)])]),                                   # F13d
+    (40, 24, [], [('upds', '0-9+-/'), ('dupds', '\\-1'), ('upds', '9-0'), ('upds', '(-*.-0'), ('upds', '-+'), ('dupds', '3-5-')]),
+    (97, 24, [(97, 120)], [('ixorl', [(97, 100)]), ('iandl', [(100, 110), 99]), ('iorl', [98, (97, 99)]), ('isubl', [(105, 120), 104])]),
 ]
 
 
@@ -207,7 +276,27 @@ def compare(run: Run, cases: list) -> None:
             st.count('op:' + name)
         if base:
             st.count('high-window')
-        for k, (m_repr, s_bits, s_canon, safe) in enumerate(states):
+        for k, (m_repr, s_bits, s_canon, safe, okd) in enumerate(states):
+            merr = serr = False
+            while m_repr.startswith(('MERR ', 'SERR ')):
+                merr, serr = merr or m_repr.startswith('MERR '), serr or m_repr.startswith('SERR ')
+                m_repr = m_repr[5:]
+            if k < len(impl) and (merr or serr or impl[k][0].startswith('ERR:RegexError ')):
+                # character-subset string rejected by somebody: implementation, model, spec must agree
+                i_err = impl[k][0].startswith('ERR:RegexError ')
+                st.count('string-rejected' if i_err else 'string-accepted-spec-rejects')
+                prefix = line_of(base, n, init, ops[:k])
+                if i_err != serr:
+                    run.disagree(Disagreement(prefix, 'RegexError' if i_err else 'accepted', None,
+                                              spec='RegexError' if serr else 'accepted',
+                                              what='subset-string-validity', site='iterparse_character_subset'))
+                    break
+                if i_err != merr:
+                    run.disagree(Disagreement(prefix, 'RegexError' if i_err else 'accepted',
+                                              'RegexError' if merr else 'accepted', what='subset-string-validity'))
+                    break
+                if i_err:
+                    impl[k] = (impl[k][0][len('ERR:RegexError '):], impl[k][1])
             if k >= len(impl):
                 run.disagree(Disagreement(line, 'missing-state', m_repr, what='codepoints-list'))
                 break
@@ -219,7 +308,11 @@ def compare(run: Run, cases: list) -> None:
                 break
             if i_bits != s_bits:
                 run.disagree(Disagreement(prefix, i_bits, None, spec=s_bits, what='membership',
-                                          site=f'UnicodeSubset.{ops[k-1][0] if k else "init"}'))
+                                          site=f'UnicodeSubset.{ops[k-1][0] if k else "init"}',
+                                          tags=['F13d'] if okd == '0' else []))
+                if okd == '0' and i_repr == m_repr:
+                    st.count('F13d-state')
+                    continue      # known finding: keep following the model (the tie is still checked)
                 break
             if i_repr != s_canon:
                 st.count('noncanonical-state')
@@ -330,6 +423,21 @@ def translate_tables(run: Run) -> dict:
         blocks.append((name, list(sub.codepoints)))
     blocks.sort(key=lambda b: (b[1][0] if isinstance(b[1][0], int) else b[1][0][0]) if b[1] else -1)
 
+    # block tables of older versions, installed AFTER newer ones in this same process: the version
+    # machinery must not leak blocks of one installation into another (history independence)
+    import warnings as _w
+    hist = []
+    for v in ('16.0.0', '6.0.0', '3.0.0', '2.1.9', us.unicode_version()):
+        with _w.catch_warnings():
+            _w.simplefilter('ignore')
+            dv = us.UnicodeData(v)
+        bl = []
+        for name in sorted(set(dv._unicode_blocks.values())):
+            val = dv._blocks[name.replace(' ', '').replace('_', '')]
+            sub = us.UnicodeSubset(val) if not isinstance(val, us.UnicodeSubset) else val
+            bl.append(list(sub.codepoints))
+        hist.append((v, bl))
+
     def lean_list(l):
         def one(c):
             return f'.one {c}' if isinstance(c, int) else f'.rng {c[0]} {c[1]}'
@@ -374,6 +482,8 @@ def translate_tables(run: Run) -> dict:
                ', '.join(f'impl_{k}' for k in names if len(k) == 2) + ']')
     out.append('def blocks : List (String × List CP) := [' +
                ', '.join(f'("{n}", {lean_list(l)})' for n, l in blocks) + ']')
+    out.append('def histBlocks : List (String × List (List CP)) := [' + ', '.join(
+        f'("{v}", [' + ', '.join(lean_list(b) for b in bl) + '])' for v, bl in hist) + ']')
     out.append('end EPV.Gen.C13')
     gen = LEAN / 'EPV' / 'Gen' / 'C13Tables.lean'
     gen.parent.mkdir(exist_ok=True)
@@ -394,6 +504,13 @@ def translate_tables(run: Run) -> dict:
                     a ^= set(range(lo, hi))
             diffs.append((k, sorted(a)[:3]))
     info['python_side_table_diffs'] = diffs
+    ov = []
+    for v, bl in hist + [('installed', [l for _, l in blocks])]:
+        ents = sorted(((c, c + 1) if isinstance(c, int) else tuple(c)) for b in bl for c in b)
+        for a, b2 in zip(ents, ents[1:]):
+            if a[1] > b2[0]:
+                ov.append([v, b2[0], min(a[1], b2[1])])
+    info['block_overlaps_quick'] = ov
     return info
 
 
@@ -432,6 +549,87 @@ def replay(run: Run) -> int:
     return 1 if bad else 0
 
 
+CAT_NAMES = ['C', 'Cc', 'Cf', 'Cs', 'Co', 'Cn', 'L', 'Lu', 'Ll', 'Lt', 'Lm', 'Lo', 'M', 'Mn', 'Mc', 'Me',
+             'N', 'Nd', 'Nl', 'No', 'P', 'Pc', 'Pd', 'Ps', 'Pe', 'Pi', 'Pf', 'Po', 'S', 'Sm', 'Sc', 'Sk',
+             'So', 'Z', 'Zs', 'Zl', 'Zp']
+
+
+def translate_all_versions(run: Run) -> dict:
+    """thorough tier: category tables of every version the package ships real data for, and the
+    block tables of all 32 installable versions -> EPV/Gen/C13V.lean (theorems: EPV/Props/ThoroughC13V.lean)"""
+    import warnings
+    from elementpath.regex import unicode_subsets as us, unicode_categories
+
+    def lst(l):
+        return '[' + ', '.join(f'.one {c}' if isinstance(c, int) else f'.rng {c[0]} {c[1]}' for c in l) + ']'
+    out = ['/- GENERATED by harness/c13.py (thorough tier) from the live /repo -- do not edit -/',
+           'import EPV.Model.UnicodeSubset', 'namespace EPV.Gen.C13V', 'open EPV.USet', '']
+    vt, vb = [], []
+    info = {'category_versions': [], 'block_versions': []}
+    try:
+        for v in us.UNICODE_VERSIONS:
+            with warnings.catch_warnings():
+                warnings.simplefilter('ignore')
+                us.install_unicode_data(v)
+            tag = v.replace('.', '_')
+            data = us.UnicodeData(v) if v in unicode_categories.UNICODE_VERSIONS else None
+            d2 = us.UnicodeData.__new__(us.UnicodeData)
+            with warnings.catch_warnings():
+                warnings.simplefilter('ignore')
+                d2.__init__(v)
+            blocks = []
+            for name in sorted(set(d2._unicode_blocks.values())):
+                val = d2._blocks[name.replace(' ', '').replace('_', '')]
+                sub = us.UnicodeSubset(val) if not isinstance(val, us.UnicodeSubset) else val
+                blocks.append(list(sub.codepoints))
+            blocks.sort(key=lambda b: (b[0] if isinstance(b[0], int) else b[0][0]) if b else -1)
+            # python-side overlap finder: only used to name a concrete code point when the theorem breaks
+            ents = sorted(((c, c + 1) if isinstance(c, int) else tuple(c)) for b in blocks for c in b)
+            for a, b2 in zip(ents, ents[1:]):
+                if a[1] > b2[0]:
+                    info.setdefault('block_overlaps', []).append([v, b2[0], min(a[1], b2[1])])
+            out.append(f'def blocks_{tag} : List (List CP) := [' + ', '.join(lst(b) for b in blocks) + ']')
+            vb.append(f'("{v}", blocks_{tag})')
+            info['block_versions'].append(v)
+            if data is None:
+                continue        # no shipped category data for this version (falls back to unicodedata)
+            cats = {k: list(us.unicode_category(k).codepoints) for k in CAT_NAMES}
+            for k in CAT_NAMES:
+                l = cats[k]
+                parts = []
+                for i in range(0, max(len(l), 1), 400):
+                    parts.append(f't_{tag}_{k}_{i // 400}')
+                    out.append(f'def {parts[-1]} : List CP := {lst(l[i:i + 400])}')
+                out.append(f'def t_{tag}_{k} : List CP := ' + ' ++ '.join(parts))
+            for k in CAT_NAMES:
+                if len(k) == 1:
+                    flat = sorted((c for kk in CAT_NAMES if len(kk) == 2 and kk[0] == k for c in cats[kk]),
+                                  key=lambda c: c if isinstance(c, int) else c[0])
+                    parts = []
+                    for i in range(0, max(len(flat), 1), 400):
+                        parts.append(f'f_{tag}_{k}_{i // 400}')
+                        out.append(f'def {parts[-1]} : List CP := {lst(flat[i:i + 400])}')
+                    out.append(f'def f_{tag}_{k} : List CP := ' + ' ++ '.join(parts))
+            majors = ', '.join(f'(t_{tag}_{k}, f_{tag}_{k}, [' + ', '.join(
+                f't_{tag}_{kk}' for kk in CAT_NAMES if len(kk) == 2 and kk[0] == k) + '])'
+                for k in CAT_NAMES if len(k) == 1)
+            out.append(f'def majors_{tag} : List (List CP × List CP × List (List CP)) := [{majors}]')
+            out.append(f'def all_{tag} : List (List CP) := [' + ', '.join(f't_{tag}_{k}' for k in CAT_NAMES) + ']')
+            vt.append(f'("{v}", majors_{tag}, all_{tag})')
+            info['category_versions'].append(v)
+    finally:
+        us.install_unicode_data()
+    out.append('def versionTables : List (String × List (List CP × List CP × List (List CP)) × List (List CP)) := ['
+               + ', '.join(vt) + ']')
+    out.append('def versionBlocks : List (String × List (List CP)) := [' + ', '.join(vb) + ']')
+    out.append('end EPV.Gen.C13V')
+    gen = LEAN / 'EPV' / 'Gen' / 'C13V.lean'
+    text = '\n'.join(out) + '\n'
+    if not gen.exists() or gen.read_text() != text:
+        gen.write_text(text)
+    return info
+
+
 def body(run: Run) -> int:
     if getattr(run, 'replay', None):
         return replay(run)
@@ -440,13 +638,27 @@ def body(run: Run) -> int:
     run.trusted_base += ['translator harness/c13.py::translate_tables (prints live tables as Lean literals)',
                          'unicodedata of the running CPython as the category oracle']
     run.assumptions += ['Python set/int semantics in the harness', 'string arguments of update() only over letters/CJK (no escapes): iterparse_character_subset escapes are not modelled']
-    run.prove(['EPV.Props.C13', 'EPV.Props.C13Tables'], ['EPV.Spec.SetSpec'])
+    props = ['EPV.Props.C13', 'EPV.Props.C13Tables']
+    if not run.quick:
+        run.stats.extra['all_versions'] = translate_all_versions(run)
+        props.append('EPV.Props.ThoroughC13V')
+    run.prove(props, ['EPV.Spec.SetSpec'])
+    for v, lo, hi in run.stats.extra.get('all_versions', {}).get('block_overlaps', []):
+        known = v in ('2.1.8', '2.1.5', '2.1.2', '2.0.0') and (lo, hi) == (65279, 65280)
+        run.disagree(Disagreement({'unicode_version': v, 'codepoints': [lo, hi]}, impl='in two blocks',
+                                  spec='in at most one block', what='blocks-disjoint',
+                                  site='unicode_blocks', tags=['F13c'] if known else []))
     table_viol = []
     for k, cps in info['python_side_table_diffs']:
         # a code point on which the installed table and unicodedata.category disagree
         table_viol.append(Disagreement({'category': k, 'codepoints': cps},
                                        impl=f'in-table({k})', spec=f'unicodedata', what='category-table',
                                        site='unicode_categories'))
+    for v, lo, hi in info['block_overlaps_quick']:
+        table_viol.append(Disagreement({'unicode_version': v, 'codepoints': [lo, hi],
+                                        'install_history': ['16.0.0', '6.0.0', '3.0.0', '2.1.9', 'default']},
+                                       impl='in two blocks', spec='in at most one block',
+                                       what='blocks-disjoint', site='unicode_subsets.UnicodeData / unicode_blocks'))
     for d in table_viol:
         run.disagree(d)
     try:
